@@ -319,10 +319,13 @@ deriving DecidableEq, Repr
 
 /-- the code before the fix commits e0254f9 / 07af69d / 4801d95 -/
 def Flags.preFix : Flags := ⟨true, true, true, true⟩
+/-- the code after those three fixes but before the fix of C07-F2: `last_trig_time` still stamped inside the time handler -/
+def Flags.preFixStamp : Flags := ⟨false, false, true, false⟩
 /-- the code as it is: `@time_active` passes the whole list, `StateActiveDecorator` returns `bool(…)`, `AstEval.eval` resets
-    its table for an empty dictionary; `last_trig_time` is still stamped inside the time handler (C07-F2) -/
-def Flags.current : Flags := ⟨false, false, true, false⟩
-def Flags.repaired : Flags := ⟨false, false, false, false⟩
+    its table for an empty dictionary, and (fix C07-F2) `last_trig_time` is stamped by `dispatch_accepted`, which
+    `FunctionDecoratorManager.dispatch` calls only after EVERY handler has let the occurrence pass -/
+def Flags.current : Flags := ⟨false, false, false, false⟩
+def Flags.repaired : Flags := Flags.current
 
 /-- what persists between occurrences: `last_trig_time` and (the name of) the expression's local variable table -/
 structure GState where
@@ -437,6 +440,14 @@ def run (F : Flags) (P : Params) (cfg : Cfg) : List Ev → GState → List Bool
   | [], _ => []
   | .direct :: es, g => true :: run F P cfg es g
   | .occ o :: es, g => (step F P cfg g o).2 :: run F P cfg es (step F P cfg g o).1
+
+/-- `TriggerHandlerDecorator.validate` (decorator_abc.py, since the fix of C07-F6): `if len(self.dm.get_decorators(type(self))) > 1:
+raise SyntaxError("… decorator @… can only be used once")` – the manager becomes INVALID, nothing is started: with `nSA` / `nTA`
+decorators of the two kinds no occurrence ever starts the function, a direct call does.  `dupAccepted = true` is the code before
+that fix: both handlers were installed (the harness then sends the merged guard as `cfg`). -/
+def runFn (dupAccepted : Bool) (F : Flags) (P : Params) (cfg : Cfg) (nSA nTA : Nat) (es : List Ev) : List Bool :=
+  if !dupAccepted && (nSA > 1 || nTA > 1) then es.map (fun e => match e with | .direct => true | .occ _ => false)
+  else run F P cfg es GState.init
 
 end New
 
